@@ -1,0 +1,249 @@
+//go:build verif
+
+package iterator
+
+// Contracts for package iterator (iterator_op.go), checked by /verif/govc.
+// Comment-only file.  An fp.Iterator parameter is an arbitrary protocol-abiding
+// source over a finite sequence: IterLen / IterAt / IterPos.
+
+//@ import "github.com/csgura/fp/internal/veriflaws"
+//
+// ---------------------------------------------------------------------------
+// Consumers
+//
+//@ func Fold(s, zero, f) result
+//@   prop C11 C12
+//@   ensures Eq(result, veriflaws.RecIterFoldL(s, IterLen(s), zero, f))
+//@   ensures IterPos(s) == IterLen(s)
+//@   loop 0 invariant IterPos(s) < IterLen(s) && Eq(sum, veriflaws.RecIterFoldL(s, IterPos(s), zero, f))
+//@   loop 0 decreases IterLen(s) - IterPos(s)
+//
+//@ func Reduce(r, m) result
+//@   prop C11 C12
+//@   ensures Eq(result, veriflaws.RecIterFoldL(r, IterLen(r), m.Empty(), m.Combine))
+//@   tag left-fold-of-combine
+//@   ensures IterPos(r) == IterLen(r)
+//@   loop 0 invariant IterPos(r) < IterLen(r) && Eq(ret, veriflaws.RecIterFoldL(r, IterPos(r), m.Empty(), m.Combine))
+//@   loop 0 decreases IterLen(r) - IterPos(r)
+//
+// Short-circuit folds: the result is the fold of the pulled prefix; a failure
+// is the FIRST failure, and nothing is pulled (nor f called) after it.
+//
+//@ func FoldTry(s, zero, f) result
+//@   prop C02 C11 C12
+//@   ensures Eq(result, veriflaws.RecIterFoldTry(s, IterPos(s), zero, f))
+//@   ensures result.IsSuccess() ==> IterPos(s) == IterLen(s)
+//@   ensures result.IsFailure() ==> IterPos(s) >= 1 && veriflaws.RecIterFoldTry(s, IterPos(s)-1, zero, f).IsSuccess()
+//@   loop 0 invariant IterPos(s) < IterLen(s) && veriflaws.RecIterFoldTry(s, IterPos(s), zero, f).IsSuccess() && Eq(sum, veriflaws.RecIterFoldTry(s, IterPos(s), zero, f).Get())
+//@   loop 0 decreases IterLen(s) - IterPos(s)
+//
+//@ func FoldOption(s, zero, f) result
+//@   prop C02 C11 C12
+//@   ensures Eq(result, veriflaws.RecIterFoldOption(s, IterPos(s), zero, f))
+//@   ensures result.IsDefined() ==> IterPos(s) == IterLen(s)
+//@   ensures !result.IsDefined() ==> IterPos(s) >= 1 && veriflaws.RecIterFoldOption(s, IterPos(s)-1, zero, f).IsDefined()
+//@   loop 0 invariant IterPos(s) < IterLen(s) && veriflaws.RecIterFoldOption(s, IterPos(s), zero, f).IsDefined() && Eq(sum, veriflaws.RecIterFoldOption(s, IterPos(s), zero, f).Get())
+//@   loop 0 decreases IterLen(s) - IterPos(s)
+//
+//@ func FoldError(s, f) result
+//@   prop C02 C12
+//@   ensures result == veriflaws.RecIterFirstErr(s, IterPos(s), f)
+//@   ensures result == nil ==> IterPos(s) == IterLen(s)
+//@   ensures result != nil ==> IterPos(s) >= 1 && veriflaws.RecIterFirstErr(s, IterPos(s)-1, f) == nil
+//@   loop 0 invariant IterPos(s) < IterLen(s) && veriflaws.RecIterFirstErr(s, IterPos(s), f) == nil
+//@   loop 0 decreases IterLen(s) - IterPos(s)
+//
+//@ func ToSeq(itr) result
+//@   prop C12 C04
+//@   ensures len(result) == IterLen(itr)
+//@   ensures forall i int :: 0 <= i && i < IterLen(itr) ==> Eq(result[i], verifspec.IterAt[V](itr, i))
+//@   ensures IterPos(itr) == IterLen(itr) && Fresh(result) && Unchanged()
+//
+//@ func ToSlice(itr) result
+//@   prop C12 C04
+//@   ensures len(result) == IterLen(itr)
+//@   ensures forall i int :: 0 <= i && i < IterLen(itr) ==> Eq(result[i], verifspec.IterAt[V](itr, i))
+//@   ensures IterPos(itr) == IterLen(itr) && Fresh(result) && Unchanged()
+//
+// ---------------------------------------------------------------------------
+// Lazy combinators with their own closures: step lemmas (see
+// /repo/verif_contracts_iterator.go for the method).
+//
+//@ ghost
+//@ func mapStep[T, U any](r fp.Iterator[T], fn func(T) U, next bool) bool {
+//@ 	it := Map(r, fn)
+//@ 	c0 := verifspec.IterPos(r) == 0
+//@ 	verifspec.Havoc(it)
+//@ 	p0 := verifspec.IterPos(r)
+//@ 	want := p0 < verifspec.IterLen(r)
+//@ 	if !c0 || it.HasNext() != want || it.HasNext() != want || verifspec.IterPos(r) != p0 {
+//@ 		return false
+//@ 	}
+//@ 	if !next {
+//@ 		return true
+//@ 	}
+//@ 	if !want {
+//@ 		return Panics(it.Next()) && verifspec.IterPos(r) == p0
+//@ 	}
+//@ 	return EqT(it.Next(), fn(verifspec.IterAt[T](r, p0))) && verifspec.IterPos(r) == p0+1
+//@ }
+//@ func zipStep[T, U any](a fp.Iterator[T], b fp.Iterator[U], next bool) bool {
+//@ 	it := Zip(a, b)
+//@ 	c0 := verifspec.IterPos(a) == 0 && verifspec.IterPos(b) == 0
+//@ 	verifspec.Havoc(it)
+//@ 	pa := verifspec.IterPos(a)
+//@ 	pb := verifspec.IterPos(b)
+//@ 	want := pa < verifspec.IterLen(a) && pb < verifspec.IterLen(b)
+//@ 	if !c0 || it.HasNext() != want || it.HasNext() != want || verifspec.IterPos(a) != pa || verifspec.IterPos(b) != pb {
+//@ 		return false
+//@ 	}
+//@ 	if !next {
+//@ 		return true
+//@ 	}
+//@ 	if !want {
+//@ 		return Panics(it.Next())
+//@ 	}
+//@ 	v := it.Next()
+//@ 	return Eq(v, fp.Tuple2[T, U]{I1: verifspec.IterAt[T](a, pa), I2: verifspec.IterAt[U](b, pb)}) && verifspec.IterPos(a) == pa+1 && verifspec.IterPos(b) == pb+1
+//@ }
+//@ func zip3Step[A, B, C any](a fp.Iterator[A], b fp.Iterator[B], c fp.Iterator[C], next bool) bool {
+//@ 	it := Zip3(a, b, c)
+//@ 	c0 := verifspec.IterPos(a) == 0 && verifspec.IterPos(b) == 0 && verifspec.IterPos(c) == 0
+//@ 	verifspec.Havoc(it)
+//@ 	pa := verifspec.IterPos(a)
+//@ 	pb := verifspec.IterPos(b)
+//@ 	pc := verifspec.IterPos(c)
+//@ 	want := pa < verifspec.IterLen(a) && pb < verifspec.IterLen(b) && pc < verifspec.IterLen(c)
+//@ 	if !c0 || it.HasNext() != want || it.HasNext() != want || verifspec.IterPos(a) != pa || verifspec.IterPos(b) != pb || verifspec.IterPos(c) != pc {
+//@ 		return false
+//@ 	}
+//@ 	if !next {
+//@ 		return true
+//@ 	}
+//@ 	if !want {
+//@ 		return Panics(it.Next())
+//@ 	}
+//@ 	v := it.Next()
+//@ 	return Eq(v, fp.Tuple3[A, B, C]{I1: verifspec.IterAt[A](a, pa), I2: verifspec.IterAt[B](b, pb), I3: verifspec.IterAt[C](c, pc)}) && verifspec.IterPos(a) == pa+1 && verifspec.IterPos(b) == pb+1 && verifspec.IterPos(c) == pc+1
+//@ }
+//@ func zipWithIndexStep[A any](s fp.Iterator[A], next bool) bool {
+//@ 	it := ZipWithIndex(s)
+//@ 	c0 := verifspec.IterPos(s) == 0 && verifspec.Cell[int](it, "idx") == 0
+//@ 	verifspec.Havoc(it)
+//@ 	p0 := verifspec.IterPos(s)
+//@ 	verifspec.Assume(verifspec.Cell[int](it, "idx") == p0)
+//@ 	want := p0 < verifspec.IterLen(s)
+//@ 	if !c0 || it.HasNext() != want || it.HasNext() != want || verifspec.IterPos(s) != p0 || verifspec.Cell[int](it, "idx") != p0 {
+//@ 		return false
+//@ 	}
+//@ 	if !next {
+//@ 		return true
+//@ 	}
+//@ 	if !want {
+//@ 		return Panics(it.Next())
+//@ 	}
+//@ 	v := it.Next()
+//@ 	return Eq(v, fp.Tuple2[int, A]{I1: p0, I2: verifspec.IterAt[A](s, p0)}) && verifspec.IterPos(s) == p0+1 && verifspec.Cell[int](it, "idx") == p0+1
+//@ }
+//@ func scanStep[A, B any](s fp.Iterator[A], zero B, f func(B, A) B, next bool) bool {
+//@ 	it := Scan(s, zero, f)
+//@ 	c0 := verifspec.IterPos(s) == 0 && verifspec.Cell[bool](it, "first") && verifspec.Eq(verifspec.W[B](verifspec.Cell[B](it, "sum")), verifspec.W[B](zero))
+//@ 	verifspec.Havoc(it)
+//@ 	p0 := verifspec.IterPos(s)
+//@ 	first := verifspec.Cell[bool](it, "first")
+//@ 	sum := verifspec.Cell[B](it, "sum")
+//@ 	verifspec.Assume((!first || p0 == 0) && verifspec.Eq(verifspec.W[B](sum), verifspec.W[B](veriflaws.RecIterFoldL(s, p0, zero, f))))
+//@ 	want := first || p0 < verifspec.IterLen(s)
+//@ 	if !c0 || it.HasNext() != want || it.HasNext() != want || verifspec.IterPos(s) != p0 || verifspec.Cell[bool](it, "first") != first {
+//@ 		return false
+//@ 	}
+//@ 	if !next {
+//@ 		return true
+//@ 	}
+//@ 	if !want {
+//@ 		return Panics(it.Next()) && verifspec.IterPos(s) == p0
+//@ 	}
+//@ 	v := it.Next()
+//@ 	p1 := verifspec.IterPos(s)
+//@ 	if first && p1 != 0 {
+//@ 		return false
+//@ 	}
+//@ 	if !first && p1 != p0+1 {
+//@ 		return false
+//@ 	}
+//@ 	return Eq(v, veriflaws.RecIterFoldL(s, p1, zero, f)) && Eq(verifspec.Cell[B](it, "sum"), veriflaws.RecIterFoldL(s, p1, zero, f)) && !verifspec.Cell[bool](it, "first")
+//@ }
+//@ func rangeStep(from, to int, closed bool, next bool) bool {
+//@ 	it := Range(from, to)
+//@ 	if closed {
+//@ 		it = RangeClosed(from, to-1)
+//@ 	}
+//@ 	c0 := verifspec.Cell[int](it, "i") == from
+//@ 	verifspec.Havoc(it)
+//@ 	i := verifspec.Cell[int](it, "i")
+//@ 	verifspec.Assume(from <= i)
+//@ 	want := i < to
+//@ 	if !c0 || it.HasNext() != want || it.HasNext() != want || verifspec.Cell[int](it, "i") != i {
+//@ 		return false
+//@ 	}
+//@ 	if !next {
+//@ 		return true
+//@ 	}
+//@ 	if !want {
+//@ 		return Panics(it.Next()) && verifspec.Cell[int](it, "i") == i
+//@ 	}
+//@ 	v := it.Next()
+//@ 	return v == i && verifspec.Cell[int](it, "i") == i+1
+//@ }
+//@ func reverseSeqStep[T any](s []T, next bool) bool {
+//@ 	it := ReverseSeq(s)
+//@ 	c0 := verifspec.Cell[int](it, "idx") == len(s)
+//@ 	verifspec.Havoc(it)
+//@ 	idx := verifspec.Cell[int](it, "idx")
+//@ 	verifspec.Assume(0 <= idx && idx <= len(s))
+//@ 	want := idx > 0
+//@ 	if !c0 || it.HasNext() != want || it.HasNext() != want || verifspec.Cell[int](it, "idx") != idx {
+//@ 		return false
+//@ 	}
+//@ 	if !next {
+//@ 		return Unchanged()
+//@ 	}
+//@ 	if !want {
+//@ 		return Panics(it.Next()) && verifspec.Cell[int](it, "idx") == idx
+//@ 	}
+//@ 	v := it.Next()
+//@ 	return Eq(v, s[idx-1]) && verifspec.Cell[int](it, "idx") == idx-1 && Unchanged()
+//@ }
+//@ end
+//
+//@ lemma iterMap[T, U any](r fp.Iterator[T], fn func(T) U, next bool)
+//@   prop C12 C20
+//@   ensures mapStep(r, fn, next)
+//
+//@ lemma iterZip[T, U any](a fp.Iterator[T], b fp.Iterator[U], next bool)
+//@   prop C12 C20
+//@   ensures zipStep(a, b, next)
+//
+//@ lemma iterZip3[A, B, C any](a fp.Iterator[A], b fp.Iterator[B], c fp.Iterator[C], next bool)
+//@   prop C12 C20
+//@   ensures zip3Step(a, b, c, next)
+//
+//@ lemma iterZipWithIndex[A any](s fp.Iterator[A], next bool)
+//@   prop C12 C20
+//@   ensures zipWithIndexStep(s, next)
+//
+//@ lemma iterScan[A, B any](s fp.Iterator[A], zero B, f func(B, A) B, next bool)
+//@   prop C12 C20
+//@   ensures scanStep(s, zero, f, next)
+//
+//@ lemma iterRange(from, to int, next bool)
+//@   prop C12 C20
+//@   ensures rangeStep(from, to, false, next)
+//@   tag range
+//@   ensures rangeStep(from, to, true, next)
+//@   tag rangeClosed
+//
+//@ lemma iterReverseSeq[T any](s []T, next bool)
+//@   prop C12 C20 C04
+//@   ensures reverseSeqStep(s, next)
+//
